@@ -155,6 +155,7 @@ func c14Ctx() map[string]interface{} {
 
 func (p *c14) Init(tier string, seed int64) {
 	p.tier, p.seed = tier, seed
+	poisonEvery = 0
 	ts := c14Templates()
 	names := make([]string, 0, len(ts))
 	for n := range ts {
